@@ -7,7 +7,7 @@
    or the configured one.  Not proved here: termination / linear step count of the scanner on arbitrary bytes (C03 / C18 prove
    it for well-framed and truncated inputs), memory safety of the unsafe blocks, thread behaviour (C17). *)
 From Coq Require Import List NArith Bool.
-From FP Require Import Model.Base Model.Rdh Model.Alpide Model.CdpRunning Model.Scanner Model.Link Model.Collector Model.System Model.Views Proofs.C04_proofs Proofs.C04_stave Proofs.C04_system Proofs.C04_views.
+From FP Require Import Model.Base Model.Rdh Model.Alpide Model.CdpRunning Model.Scanner Model.Link Model.Collector Model.System Model.Views Proofs.C04_proofs Proofs.C04_stave Proofs.C04_system Proofs.C04_views Proofs.C04_scanner.
 From FP Require Gen.Facts.
 Import ListNotations.
 Open Scope N_scope.
@@ -69,6 +69,15 @@ Theorem C04_known_finding_layer_7_witness : forall dv c rest, 6 < layer_from_fee
   view_frames dv (c :: rest) = ([], VE_panic SITE_view_stave_from_feeid).
 Proof. exact c04_view_layer7_panics. Qed.
 
+(* the reader on ARBITRARY bytes, every configuration (file / pipe, any filter, payloads skipped or read): its loop ends by itself --
+   normally or with the input error -- within length/64 + 2 rounds (the fuel of the model is that number and is never exhausted), and
+   hands on at most length/64 packets: every round that goes on has consumed the 64 bytes of an RDH *)
+Theorem C04_scanner_terminates_on_every_input : forall oa keep c input, so_end (scan oa keep c input) <> End_fuel.
+Proof. exact c04_scan_terminates. Qed.
+Theorem C04_scanner_packet_bound : forall oa c input,
+  (length (snd (fst (scan_flat oa (scan_fuel input) c (sinit input)))) * 64 <= length input)%nat.
+Proof. exact c04_scan_packet_bound. Qed.
+
 Theorem C04_exit_range : forall aee r flag,
   exit_code aee r flag = 0 \/ exit_code aee r flag = 1 \/ exists n, aee = Some n /\ exit_code aee r flag = n.
 Proof. exact c04_exit_range. Qed.
@@ -88,4 +97,6 @@ Print Assumptions C04_whole_run_outcomes.
 Print Assumptions C04_frame_view_panics_only_for_layer_7.
 Print Assumptions C04_frame_view_outcomes.
 Print Assumptions C04_known_finding_layer_7_witness.
+Print Assumptions C04_scanner_terminates_on_every_input.
+Print Assumptions C04_scanner_packet_bound.
 Print Assumptions C04_exit_range.
